@@ -19,8 +19,8 @@ LEVEL = "fault_enumeration"
 RULE = (
     "strategy: all 2^L words over {failure, reset} (L=14 quick, 17 thorough), current_delay_sec checked after every prefix, for max_delay in {1,2,3,5,60,3600}; random words up to 200 "
     "with random max_delay 1..3600. manager: all words over {ok, fail} up to length 8 (thorough; 6 quick) x connection lifetime patterns {1,3,7,20 s mixes} x (threshold, sleep, max_delay) "
-    "configurations on the virtual loop (after the word every attempt fails); oracle on every gap: after the n-th consecutive failure min(2^(n-1),max_delay) <= gap <= max(that, sleep)+0.01; "
-    "after a loss that follows the previous loss within the threshold gap >= sleep; every gap <= max(back-off, sleep)+0.01. "
+    "configurations on the virtual loop (after the word every attempt fails); oracle on every gap: after the n-th consecutive failure min(2^(n-1),max_delay) <= gap <= max(that, sleep)+0.25 s slack; "
+    "after a loss that follows the previous loss within the threshold gap >= sleep; every gap <= max(back-off, sleep)+0.25. "
     "evaluations = words/scenarios executed; distinct non-trivial = distinct words/scenarios (by construction for the enumerated parts) containing >= 1 failure."
 )
 ASSUMPTIONS = [
@@ -29,7 +29,8 @@ ASSUMPTIONS = [
 ]
 WATCHDOG_S = {"quick": 900, "thorough": 7200}
 MAX_DELAYS = (1, 2, 3, 5, 60, 3600)
-EPS = 0.01
+EPS = 1e-4  # lower bounds are exact on a virtual clock (log times are rounded to 1e-6)
+SLACK = 0.25  # 'scheduling slack' granted to upper bounds (an implementation may poll)
 
 
 def plan(tier, seed):
@@ -93,7 +94,7 @@ def judge_manager(events, cfg, ctx, case) -> int:
                 if gap < lo - EPS:
                     which = "backoff" if pk == "fail" else "breaker"
                     ctx.violation(f"C18:manager:too-early:{which}", f"attempt {ev[3]} started {gap:.3f}s after the {pk} at t={pt}, lower bound {lo}s (cfg {cfg})", case)
-                if gap > hi + EPS:
+                if gap > hi + SLACK:
                     ctx.violation(f"C18:manager:too-late:{'backoff' if pk == 'fail' else 'after-loss'}", f"attempt {ev[3]} started {gap:.3f}s after the {pk} at t={pt}, upper bound {hi}s (cfg {cfg})", case)
                 ctx.maximum("max_gap_seen", gap)
                 pending = None
@@ -157,7 +158,7 @@ def run(shard, ctx):
         res = vloop.run_scenario(["ok", "ok", "ok"], [100.0, 100.0, None], horizon=400, config={}, default_outcome="ok")
         starts = [e[0] for e in res["events"] if e[2] == "attempt_start"]
         ctx.count("calibration_shim_calls", res["shim_calls"])
-        ok = res["shim_calls"] >= 2 and len(starts) >= 3 and abs(starts[2] - 200.0) < EPS
+        ok = res["shim_calls"] >= 2 and len(starts) >= 3 and abs(starts[2] - 200.0) < SLACK
         ctx.count("calibration_ok", 1 if ok else 0)
         ctx.case("calibration", True)
         if not ok:
